@@ -27,7 +27,7 @@
 (* model of the real code and is used by the check's self-test to show     *)
 (* that the invariants reject plausible breakages.                         *)
 (***************************************************************************)
-EXTENDS Naturals, FiniteSets, TLC
+EXTENDS Integers, FiniteSets, TLC
 
 CONSTANTS NT,        \* tenants 1..NT
           Callers,   \* caller threads (model values, symmetric)
@@ -102,6 +102,8 @@ Holders(t)    == { c \in Callers : pc[c] \in {"global", "refund"} /\ ten[c] = t 
 Holding(t, u) == Cardinality({ c \in Holders(t) : ct[c] = u })
 \* tokens taken from tenant t's bucket: admitted calls, plus calls in flight that hold a token
 ConsH(t) == [u \in Ticks |-> ConsT(t)[u] + Holding(t, u)]
+\* ... counting only the calls in flight that can still be admitted
+ConsP(t) == [u \in Ticks |-> ConsT(t)[u] + Cardinality({ c \in Holders(t) : ct[c] = u /\ pc[c] = "global" })]
 
 Refilled(b) == IF now > bk[b].last THEN Min(Full(b), bk[b].tok + (now - bk[b].last) * Rate(b)) ELSE bk[b].tok
 
@@ -128,7 +130,7 @@ ConsumeTenant(c, t) ==
         ELSE /\ bk' = [bk EXCEPT ![t] = IF Bug = "refund_on_tenant_refusal"
                                          THEN [s EXCEPT !.tok = Min(s.tok + Unit, Full(t))] ELSE s]
              /\ okStarve' = (okStarve /\ Level(t, ConsH(t)) < Unit)
-             /\ okStrict' = (okStrict /\ ~(Level(t, ConsT(t)) >= Unit /\ (HasGlobal => Level(G, ConsG) >= Unit)))
+             /\ okStrict' = (okStrict /\ ~(Level(t, ConsP(t)) >= Unit /\ (HasGlobal => Level(G, ConsG) >= Unit)))
              /\ UNCHANGED <<pc, ten, ct, win>>
   /\ UNCHANGED now
 
@@ -171,10 +173,10 @@ Sym  == Permutations(Callers)
 -----------------------------------------------------------------------------
 TypeOK ==
   /\ now \in Ticks
-  /\ \A b \in Tenants \cup {G} : bk[b].tok \in Nat /\ bk[b].last \in 0..now
+  /\ \A b \in Tenants \cup {G} : bk[b].tok \in Int /\ bk[b].last \in 0..now
   /\ \A c \in Callers : pc[c] \in {"idle", "global", "refund"} /\ ten[c] \in 0..NT /\ ct[c] \in 0..now
 
-Capped == \A b \in Tenants \cup {G} : bk[b].tok <= Full(b)
+Capped == \A b \in Tenants \cup {G} : bk[b].tok >= 0 /\ bk[b].tok <= Full(b)
 
 \* ---- the property, on the callers' clock ---------------------------------------------------------
 \* admitted calls of tenant t whose interval [s, e] lies inside [S, E]
@@ -212,9 +214,9 @@ GlobalExact   == HasGlobal => Refilled(G) = Level(G, ConsG)
 \* No call was refused at a stage whose bucket, as determined by admitted and in-flight calls, held a token.
 NoStarveBelowRate == okStarve
 
-\* Stricter reading that ignores calls in flight (Strict = "withhold"): "no call is refused at the tenant
-\* stage while the tenant bucket determined by ADMITTED calls alone holds a token and the global bucket
-\* has room".  Fails: between a caller's failed global consume and its refund the tenant token is
+\* Stricter reading that ignores the tokens held by calls already refused by the global bucket
+\* (Strict = "withhold"): "no call is refused at the tenant stage while the tenant bucket determined by
+\* admitted and still-undecided calls holds a token and the global bucket has room".  Fails: between a caller's failed global consume and its refund the tenant token is
 \* withheld; if the clock advances in that window the global bucket regains room and a concurrent call
 \* of the same tenant is refused.  Not observable on caller clocks (the two calls overlap).
 NoTransientWithhold == (Strict = "withhold" \/ NC = 1) => okStrict
